@@ -83,7 +83,7 @@ func runC10(r *Report, tier string) {
 	seen := map[string]bool{}
 	nPtr := 0
 	npaths := 0
-	for _, p := range P.allPaths(F) {
+	for _, p := range P.deepPaths(F) {
 		if !p.feasible() {
 			continue
 		}
@@ -175,7 +175,11 @@ func runC10(r *Report, tier string) {
 			}
 			b, ok := unify(spec, content, bindings{})
 			if !ok {
-				o.fail(firstDiff(spec, content, "content"))
+				cs := ""
+				for _, c := range p.conds {
+					cs += " " + truncate(c.String(), 70) + ";"
+				}
+				o.fail(firstDiff(spec, content, "content") + " on the path with conditions" + cs)
 				continue
 			}
 			why := ""
